@@ -106,6 +106,17 @@ _c01_thorough.append(run("reclaim", "proto_he", c=2, d=1, mode="wmm", heap="reus
 # less eager parameters (scan_frequency 1..3, scan threshold B = 2, scan n_threads<1>, abandon threshold 2, eager region extension): the counters that delay
 # a scan or an epoch advance are part of the protocol too
 RECL_LAZY = ["ebr_f2", "debra_f1", "gebr_f3", "hp_b2", "hed_b2"]
+# guard_ptr and region_guard lifetimes that are not nested (seed C01d: with region_extension eager / lazy the end of a region_guard left the critical region although a
+# guard_ptr was still alive): family "a guard that outlives a region_guard" against a writer that unlinks, retires and enters three more critical regions; all
+# one-thread programs of four operations over {read, replace, remove, rg_hold}; rg_hold in the two-thread alphabet
+for r in RECL_ALL + RECL_LAZY:
+    _c01_quick.append(run("reclaim", "proto_" + r, c=1, opt={"fixed": 4, "m": 4}, weight=0.15))
+    _c01_quick.append(run("reclaim", "proto_" + r, c=0, opt={"ops": 0x261, "T": 1, "m": 4}, weight=0.15))
+    _c01_thorough.append(run("reclaim", "proto_" + r, c=2, opt={"fixed": 4, "m": 4}, weight=1))
+    _c01_thorough.append(run("reclaim", "proto_" + r, c=1 if r == "stamp" else 2, opt={"ops": 0x262}, weight=2))
+    _c01_thorough.append(run("reclaim", "proto_" + r, c=0, opt={"ops": 0x2e3, "T": 1, "m": 5}, weight=0.5))
+for r in ["nebr", "gebr_lazy", "gebr_thr", "ebr", "hp", "stamp"]:
+    _c01_quick.append(run("reclaim", "proto_" + r, c=1, opt={"ops": 0x260}, weight=0.4))
 for r in ["hp", "he", "ebr", "qsbr", "lfrc", "debra"]:  # four threads, one operation each
     _c01_thorough.append(run("reclaim", "proto_" + r, c=1, opt={"ops": 0x62, "T": 4, "m": 1}, weight=2))
 for r in RECL_LAZY:
@@ -278,6 +289,8 @@ _c06_quick = [
     run("kfifo", "kb", c=0, r=2, opt={"T": 1, "m": 6, "k": 2, "segs": 2, "prefill": 0}), run("kfifo", "kb", c=0, r=2, opt={"T": 1, "m": 6, "k": 2, "segs": 3, "prefill": 0}),
     run("kfifo", "kf_hp", c=1, r=1, opt={"k": 2}), run("kfifo", "kf_ebr", c=1, r=1, opt={"k": 2}), run("kfifo", "kf_stamp", c=1, r=0, opt={"k": 2}),
     run("kfifo", "kf_hp", c=2, opt={"k": 1}), run("kfifo", "kf_hp", c=0, r=2, opt={"T": 1, "m": 6, "k": 2, "prefill": 0}),
+    # two slots per segment, two preemptions (seed C06e: an insert committed into a segment that advance_head has unlinked but not yet flagged)
+    run("kfifo", "kf_hp", c=2, opt={"k": 2}, weight=0.6), run("kfifo", "kf_ebr", c=2, opt={"k": 2}, weight=0.6),
     # k that is not a power of two (seed C06c: slot scan with a mask instead of a modulo reaches only some of the k slots)
     run("kfifo", "kb", c=0, r=1, opt={"T": 1, "m": 8, "k": 3, "segs": 3, "prefill": 0}, weight=0.5), run("kfifo", "kb", c=0, r=1, opt={"T": 1, "m": 8, "k": 5, "segs": 2, "prefill": 0}, weight=0.5),
     run("kfifo", "kb", c=0, r=2, opt={"T": 1, "m": 8, "k": 3, "segs": 2, "prefill": 0}, weight=0.5), run("kfifo", "kf_hp", c=0, r=1, opt={"T": 1, "m": 8, "k": 3, "prefill": 0}, weight=0.5),
@@ -343,6 +356,12 @@ for t in ["ram_e1_up_hp", "ram_e2_up_hp", "nik_e1_up_hp", "kf_k1_up_hp", "kf_k2_
     _c07_quick.append(run("ownership", t, c=2, weight=2))
     _c07_thorough.append(run("ownership", t, c=3, opt={"prefill": 1}, weight=6))
     _c07_thorough.append(run("ownership", t, c=2, heap="reuse", weight=1))
+# k-FIFO queues with the start slot inside a segment as a recorded choice (--opt rdom=2, one deviation); three threads x one operation with three preemptions and
+# one deviating start slot is what seed C07f needs (two late pushers into a segment that advance_head has flagged but failed to unlink): thorough tier
+for t in ["kf_k2_up_hp", "kf_k2_up_ebr", "kb_k2s2_up"]:
+    _c07_quick.append(run("ownership", t, c=2, r=1, opt={"rdom": 2}, weight=1))
+    _c07_thorough.append(run("ownership", t, c=3, r=1, opt={"rdom": 2, "T": 3, "m": 1}, weight=12))
+    _c07_thorough.append(run("ownership", t, c=2, r=1, opt={"rdom": 2, "T": 3, "m": 1, "prefill": 1}, weight=3))
 # sequential sweeps with unique_ptr elements at larger node / ring / segment sizes, destroyed with two elements inside (and empty)
 for t in _sw_fifo + ["nb", "vb", "kb", "kf_hp"]:
     _c07_quick.append(run("sweep", t, c=0, r=0, opt={"maxn": 24, "laps": 2, "rest": 2, "maxcap": 20}, weight=0.1))
@@ -558,6 +577,9 @@ _c10_thorough = [run("vy", "map_" + t, c=0, opt={"T": 1, "m": 4, "keys": 5, "cap
 # sequential sweeps: capacities 1 / 8 / 128, up to 24 (48) keys spread over the buckets or sharing 1 / 4 buckets, removal by erase / extract / iterator, refill
 _vy_sweeps = ["tt_id_hp", "tt_i1_hp", "tt_i4_ebr", "tn_i4_hp", "tn_id_ebr", "st_sid_hp", "st_s1_hp", "sn_sid_ebr", "tm_i4_hp", "tm_id_ebr", "sm_sid_hp"]
 _c10_quick += [run("vy", "sweep_" + t, c=0, weight=0.15) for t in _vy_sweeps]
+# lock-free readers against removals made through an iterator (C11's family; seed C10d breaks C10's "never 'absent' for a key present throughout the call" that way)
+_c10_quick += [run("vy", t, c=1, weight=0.3) for t in ["itf_tn_i1_hp", "itf_st_s1_hp"]]
+_c10_thorough += [run("vy", "itf_" + t, c=2, weight=1) for t in ["tt_i1_hp", "st_s1_hp", "tm_i1_hp", "tn_i1_hp", "sm_s1_hp"]]
 _c10_thorough += [run("vy", "sweep_" + t, c=0, opt={"maxn": 24 if t == "st_s1_hp" else 48, "ncaps": 5}, weight=0.5) for t in _vy_sweeps]
 PLAN["C10"] = {
     "quick": _c10_quick, "thorough": _c10_thorough, "budget_s": {"quick": 170, "thorough": 1300},
@@ -576,8 +598,12 @@ LEVEL_TEXT["C10"] = ("all sequential operation sequences to depth 3-4 for 8-19 s
 # ------------------------------------------------------------------------------------------------- C11
 TITLES["C11"] = "vyukov_hash_map iterators: exclusive traversal, erase(iterator), no lost locks"
 _c11_seq = ["it_tt_i1_hp", "it_tt_i2_hp", "it_st_s1_hp", "it_tm_i1_hp", "it_tn_i1_hp", "it_sm_s2_ebr", "it_st_s2_hp"]
+# an iterator stepping from one bucket into the next while an insertion makes the two-bucket map grow (grow() takes every bucket lock in ascending order and never
+# gives them back; hand-over-hand locking is what keeps the iterator ahead of it - seed C11d): begin() on the bucket holding key 1, ++ into the bucket of 0, 2, 4
+_IT_GROW = {"cap": 2, "steps": 2, "act0": 0, "act1": 1, "keys": 8, "prefill": 23, "updaters": 1, "m": 1, "uemplace": 1, "ukeymask": 64}
 PLAN["C11"] = {
-    "quick": [run("vy", t, c=0, opt={"steps": 4, "keys": 5, "prefill": 31}, weight=0.5) for t in _c11_seq] +
+    "quick": [run("vy", "it_tt_i2_hp", c=2, opt=_IT_GROW, weight=5)] +
+             [run("vy", t, c=0, opt={"steps": 4, "keys": 5, "prefill": 31}, weight=0.5) for t in _c11_seq] +
              [run("vy", "it_tt_i2_hp", c=0, opt={"steps": 3, "keys": 8, "prefill": 255}, weight=0.5),
               run("vy", "it_tt_i1_hp", c=1, opt={"steps": 2, "keys": 5, "prefill": 31, "readers": 1, "m": 1}, weight=2),
               run("vy", "it_st_s1_hp", c=1, opt={"steps": 2, "keys": 5, "prefill": 31, "readers": 1, "m": 1}, weight=2),
@@ -586,14 +612,16 @@ PLAN["C11"] = {
              [run("vy", t, c=2, weight=2) for t in ["itf_tt_i1_hp", "itf_st_s1_hp"]] + [run("vy", t, c=1, weight=0.5) for t in ["itf_tm_i1_hp", "itf_tn_i1_hp", "itf_tt_i2_hp"]] +
              # sequential sweeps: erasing traversals / find+erase(iterator) over maps with long extension chains and after several grows, map emptied through an iterator
              [run("vy", "sweep_" + t, c=0, weight=0.15) for t in _vy_sweeps],
-    "thorough": [run("vy", t, c=0, opt={"steps": 5, "keys": 5, "prefill": 31}, weight=2) for t in _c11_seq] +
+    "thorough": [run("vy", t, c=2, opt=_IT_GROW, weight=1.5) for t in ["it_tt_i2_hp", "it_st_s2_hp", "it_tn_i2_ebr", "it_sm_s2_ebr"]] +
+                [run("vy", "it_tt_i2_hp", c=2, opt=dict(_IT_GROW, steps=3, mapops=0, ukeymask=0, uemplace=0), weight=4), run("vy", "it_tt_i2_hp", c=3, opt=_IT_GROW, weight=4)] +
+                [run("vy", t, c=0, opt={"steps": 5, "keys": 5, "prefill": 31}, weight=2) for t in _c11_seq] +
                 [run("vy", "itf_" + t, c=3, weight=3) for t in ["tt_i1_hp", "st_s1_hp", "tm_i1_hp", "tn_i1_hp", "sm_s1_hp", "tt_i1_ebr", "tt_i2_hp"]] +
                 [run("vy", "it_tt_i2_hp", c=0, opt={"steps": 4, "keys": 8, "prefill": 255}, weight=2)] +
                 [run("vy", t, c=1, opt={"steps": 3, "keys": 5, "prefill": 31, "readers": 1, "m": 1}, weight=6) for t in ["it_tt_i1_hp", "it_st_s1_hp", "it_tm_i1_hp", "it_tn_i1_hp"]] +
                 [run("vy", t, c=2, opt={"steps": 2, "keys": 5, "prefill": 31, "readers": 1, "m": 1}, weight=6) for t in ["it_tt_i1_hp", "it_st_s1_hp"]] +
                 [run("vy", t, c=1, opt={"steps": 3, "keys": 4, "prefill": 15, "updaters": 1, "m": 1}, weight=4) for t in ["it_tt_i2_hp", "it_st_s2_hp", "it_sm_s2_ebr"]] +
                 [run("vy", "it_tt_i2_hp", c=1, opt={"steps": 2, "keys": 4, "prefill": 15, "updaters": 1, "readers": 1, "m": 1}, weight=4)],
-    "budget_s": {"quick": 150, "thorough": 1200},
+    "budget_s": {"quick": 200, "thorough": 1200},
     "rule": "one iterator thread performs an enumerated sequence (2-5 steps) of {begin, ++, erase(iterator), reset, find(key) move-assigned onto the iterator, ordinary "
             "emplace/erase} (programs that would wait for their own bucket lock are pruned as illegal), on 128-bucket maps whose keys share one or two buckets with populated "
             "extension lists; concurrently 0-1 lock-free readers (try_get_value) and 0-1 writers on enumerated keys; afterwards every key is read, one key per bucket is "
